@@ -7,6 +7,9 @@ Implementation under test (all real, in-process):
   * kind "fix":    `record_processing.fix_record_name_id` on one record with a given id set
                    (reaches `_shorten_ids` and its three regular expressions directly)
   * kind "unique": `record_processing.generate_unique_id`
+  * kind "bio":    `Record.from_biopython` on a biopython SeqRecord with gene / CDS SeqFeatures (identifiers in the
+                   qualifiers, as read from a GenBank file): `CDSFeature.from_biopython`, `Gene.from_biopython`,
+                   `pop_locus_qualifier`, `add_biopython_feature`, rejection of the whole record
   * kind "genes":  a sequence of `Record.add_gene` / `Record.add_cds_feature` calls with real
                    `CDSFeature`s (whose constructor runs `_sanitise_id_value`)
 """
@@ -105,6 +108,21 @@ class C16(Property):
     ID = "C16"
     USES_TABLES = True
     SHAPE = [(RP, "pre_process_sequences"), (RP, "fix_record_name_id"), (RP, "generate_unique_id"),
+             (RP, "sanitise_sequence"), (RP, "records_contain_shotgun_scaffolds"), (RP, "filter_records_by_name"),
+             (RP, "filter_records_by_count"),
+             ("antismash/common/secmet/record.py", "Record.__init__"),
+             ("antismash/common/secmet/record.py", "Record.__getattr__"),
+             ("antismash/common/secmet/record.py", "Record.__setattr__"),
+             ("antismash/common/secmet/record.py", "Record.get_genes_by_name"),
+             ("antismash/common/secmet/record.py", "Record.get_cds_by_name"),
+             ("antismash/common/secmet/features/feature.py", "Feature.overlaps_with"),
+             ("antismash/common/secmet/features/gene.py", "Gene.__init__"),
+             ("antismash/common/secmet/features/gene.py", "Gene.from_biopython"),
+             ("antismash/common/secmet/features/cds_feature.py", "CDSFeature.from_biopython"),
+             ("antismash/common/secmet/features/feature.py", "pop_locus_qualifier"),
+             ("antismash/common/secmet/record.py", "Record.from_biopython"),
+             ("antismash/common/secmet/record.py", "Record.add_biopython_feature"),
+             ("antismash/common/secmet/features/gene.py", "Gene.get_name"),
              ("antismash/common/secmet/record.py", "Record.add_cds_feature"),
              ("antismash/common/secmet/record.py", "Record.add_gene"),
              ("antismash/common/secmet/record.py", "_location_checksum"),
@@ -120,13 +138,16 @@ class C16(Property):
             "single fix_record_name_id calls with arbitrary id sets / original_id / record_index up to 10^13, "
             "generate_unique_id with holes around the start counter and max_length at the boundary, and sequences of "
             "add_gene/add_cds_feature with names equal after _sanitise_id_value, equal locations, overlapping and "
-            "disjoint splice variants; thorough/deep adds every list of <=3 ids over a 30-id small scope; "
+            "disjoint splice variants, locus tags that are literally the name a splice-variant rename generates; "
+            "digit-boundary families: every candidate up to the next power of ten taken with max_length fitting the "
+            "first candidate exactly, single calls whose fallback must skip 9..1001 taken `<12 chars>_<n>` ids, and "
+            "four ~1000-record inputs per run in which the fallback has to count past 999; thorough/deep adds every list of <=3 ids over a 30-id small scope; "
             "non-trivial = some identifier was rewritten or an operation was rejected; distinct by canonical input")
     TRUSTED = ["Python `re` (the three patterns are modelled by deterministic scanners; ASCII character classes: "
                "non-ASCII digits/letters are outside the modelled input space)",
                "Python str/set/dict semantics, str.partition/count/replace, f-string integer formatting",
-               "zlib.crc32 (the checksum is an input of the model; the harness recomputes it independently of the repo)",
-               "str(location) is injective on exact locations (the model keys CDS features by the location itself)",
+               "zlib.crc32 and str(location) are modelled (Model/Ids.crc32, Model/LocString.locChars) and compared with "
+               "the real ones through every renamed splice variant; exact positions only",
                "int() of more than 4300 digits raises in CPython >= 3.11 (ids that long are outside the generated space)",
                "the sequence/CDS parts of pre_process_sequences (sanitise_sequence, ensure_cds_info, filters) do not "
                "touch id/name/original_id; the harness stubs the process pool and ensure_cds_info"]
@@ -155,8 +176,35 @@ class C16(Property):
         for i in ids:
             r = rng.random()
             name = i if r < 0.6 else (rand_id(rng) if r < 0.85 else rng.choice(ids))
-            recs.append([i, name])
+            rec = [i, name]
+            if rng.random() < 0.15:     # an `accession` annotation (shortened when > 16, whatever the setting)
+                rec.append(rng.choice([i, rand_id(rng), i.partition(".")[0]]))
+            recs.append(rec)
         return {"kind": "ids", "allow_long": rng.random() < 0.35, "recs": recs}
+
+    def gen_exhaustion_ids_case(self, rng: random.Random) -> Dict[str, Any]:
+        """record level: the `<12 chars>_<n>` fallback has to count past 999, i.e. the counter gains a digit
+        exactly where the 16 character budget ends (must be rejected, never a 17 character id)"""
+        mode = rng.choice(["shorten", "shorten", "strip"])
+        if mode == "shorten":    # the shortened form must be shared, so the number has to be parsed from the id
+            stem = rng.choice(["contig7.asse", "caf12.abcdef", "xcontig123.a"])
+        else:
+            stem = rng.choice(["contig7.asse", "abcdefghijkl", "scaffold3_xy", "NZ_ABCD01000", "x.y.z.x.y.z."])
+        n_literal = rng.choice([999, 1000, 1000, 1000, 1001])
+        literal = [f"{stem}_{k}" for k in range(n_literal)]
+        if mode == "shorten":
+            # over-long ids with the same first 12 characters and the same shortened form
+            tails = rng.sample(["mbly.part0000", "mbly.part0001", "mbly.part0002", "mbly_a", "mbly_b"], rng.choice([2, 3]))
+            special = [stem + t for t in tails]
+        else:
+            # ids whose stripped form is another record's id: fallback on stripped[:12]
+            special = [stem + ":x", stem + "x", stem + ";x"][:rng.choice([2, 3])]
+        ids = literal + special
+        if rng.random() < 0.5:
+            ids = special + literal
+        elif rng.random() < 0.3:
+            rng.shuffle(ids)
+        return {"kind": "ids", "allow_long": rng.random() < 0.1, "recs": [[i, i] for i in ids]}
 
     def gen_fix_case(self, rng: random.Random) -> Dict[str, Any]:
         rid = rand_id(rng)
@@ -168,15 +216,39 @@ class C16(Property):
             if rng.random() < 0.3:
                 taken.add(v)
         if rng.random() < 0.3:
-            for k in range(rng.choice([1, 2, 11, 101])):
+            for k in range(rng.choice([1, 2, 11, 101, 101, 1000, 1001])):
                 taken.add(f"{strip_illegal(rid)[:12]}_{k}")
                 if rng.random() < 0.5:
                     taken.add(f"{rid[:12]}_{k}")
         r = rng.random()
         name = rid if r < 0.4 else rand_id(rng)
         orig = None if rng.random() < 0.8 else rng.choice(["", "orig", rid])
-        return {"kind": "fix", "allow_long": rng.random() < 0.3, "rid": rid, "name": name, "orig": orig,
+        case = {"kind": "fix", "allow_long": rng.random() < 0.3, "rid": rid, "name": name, "orig": orig,
                 "index": index, "taken": sorted(taken)}
+        if rng.random() < 0.2:
+            case["acc"] = rng.choice([rid, rand_id(rng), rid[:16], rid[:17]])
+        return case
+
+    def gen_fix_exhaustion_case(self, rng: random.Random) -> Dict[str, Any]:
+        """one call whose fallback must skip `<prefix>_0 … _(n-1)`: n around the powers of ten, so that the counter
+        gains a digit; with a 12 character prefix the budget of 16 ends exactly at 999 -> 1000"""
+        plen = rng.choice([12, 12, 12, 11, 10])
+        base = rng.choice(["abcdefghijklmnopqrstu", "contig7.assembly.part0000", "ab:cdefghijklmnopqrstu",
+                           "abcdefghij:klmnopqrstu", "abcdefghijklmn;"])
+        if plen < 12:
+            base = base[:plen]
+        allow = rng.random() < 0.15
+        n = rng.choice([9, 10, 11, 99, 100, 101, 999, 1000, 1000, 1001])
+        taken = {base}
+        for v in variants(rng, base, 1):
+            taken.add(v)
+        for k in range(n):
+            taken.add(f"{base[:12]}_{k}")
+            taken.add(f"{strip_illegal(base)[:12]}_{k}")
+            if allow:
+                taken.add(f"{strip_illegal(base)}_{k}")
+        return {"kind": "fix", "allow_long": allow, "rid": base, "name": "n", "orig": None, "index": 1,
+                "taken": sorted(taken)}
 
     def gen_unique_case(self, rng: random.Random) -> Dict[str, Any]:
         prefix = rng.choice(["a", "", "seq", "a_1", "abcdefghijkl", "a:b", "x_"])
@@ -193,14 +265,36 @@ class C16(Property):
         max_length = rng.choice([-1, 0, 16, probe - 1, probe, probe + 1, 1])
         return {"kind": "unique", "prefix": prefix, "taken": sorted(taken), "start": start, "max_length": max_length}
 
+    def gen_unique_boundary_case(self, rng: random.Random) -> Dict[str, Any]:
+        """every candidate from `start` up to the next power of ten is taken; max_length fits the first candidate
+        exactly (and sometimes the returned one, one character more)"""
+        prefix = rng.choice(["ab", "", "abcdefghijkl", "seq", "a_1", "c00001_abcdefg.."[:rng.choice([3, 12])]])
+        power = rng.choice([10, 10, 100, 1000])
+        start = rng.choice([0, power // 10, power - 10 if power > 10 else 0, power - 3, power - 1])
+        taken = {f"{prefix}_{k}" for k in range(start, power)}
+        extra = rng.choice([0, 0, 1, 5])
+        for k in range(power, power + extra):
+            taken.add(f"{prefix}_{k}")
+        first = len(f"{prefix}_{start}")
+        max_length = rng.choice([first, first, first + 1, first - 1, len(f"{prefix}_{power}"), -1])
+        return {"kind": "unique", "prefix": prefix, "taken": sorted(taken), "start": start, "max_length": max_length}
+
     GENE_NAMES = ["a", "a:b", "a_b", "a b", "a;b", "b", "b\t", "b_", "", "c"]
     GENE_LOCS = [[[10, 40, 1]], [[10, 40, -1]], [[20, 50, 1]], [[40, 70, 1]], [[100, 130, 1]], [[39, 60, 1]],
-                 [[10, 25, 1], [30, 40, 1]], [[60, 90, -1]], [[10, 40, 1], [100, 130, 1]], [[200, 260, 1]]]
+                 [[10, 25, 1], [30, 40, 1]], [[60, 90, -1]], [[10, 40, 1], [100, 130, 1]], [[200, 260, 1]],
+                 [[18, 45, 1]]]    # crc32("[18:45](+)") = 0x0cdea4e3: a checksum with a leading zero nibble
 
     def gen_genes_case(self, rng: random.Random) -> Dict[str, Any]:
         ops = []
         names = rng.sample(self.GENE_NAMES, rng.choice([2, 3, 4]))
         locs = rng.sample(self.GENE_LOCS, rng.choice([2, 3, 4, 6]))
+        if rng.random() < 0.35:
+            # a locus tag that is literally the name the splice-variant rename would generate for one of the
+            # locations in play (annotations carried over from an earlier run)
+            base = rng.choice([n for n in names if n] or ["a"])
+            parts = rng.choice(locs)
+            crc = f"{zlib.crc32(loc_str({'c': len(parts) > 1, 'parts': parts}).encode('utf-8')):x}"
+            names.append(f"{sanitised(base)}_{crc}")
         for _ in range(rng.choice([2, 3, 4, 5, 6, 8])):
             parts = rng.choice(locs)
             loc = {"c": len(parts) > 1, "parts": parts}
@@ -222,6 +316,39 @@ class C16(Property):
                 op["protein_id"] = rng.choice(names)
             ops.append(op)
         return {"kind": "genes", "ops": ops}
+
+    BIO_NAMES = ["a", "a b", "ab", "a:b", "a_b", " ", "", "b", "g 1", "g1", "cds10_40", "gene10_40"]
+
+    def gen_bio_case(self, rng: random.Random) -> Dict[str, Any]:
+        """a record as read from a file: gene and CDS features with identifier qualifiers"""
+        feats = []
+        names = rng.sample(self.BIO_NAMES, rng.choice([2, 3, 4]))
+        locs = rng.sample(self.GENE_LOCS, rng.choice([2, 3, 4, 6]))
+        if rng.random() < 0.3:
+            base = rng.choice([n for n in names if n.strip()] or ["a"]).replace(" ", "")
+            parts = rng.choice(locs)
+            crc = f"{zlib.crc32(loc_str({'c': len(parts) > 1, 'parts': parts}).encode('utf-8')):x}"
+            names.append(f"{sanitised(base)}_{crc}")
+        for _ in range(rng.choice([1, 2, 3, 4, 5, 6])):
+            parts = rng.choice(locs)
+            feat: Dict[str, Any] = {"cds": rng.random() < 0.75, "loc": {"c": len(parts) > 1, "parts": parts},
+                                    "locus_tag": None, "gene": None, "protein_id": None, "pseudo": False}
+            r = rng.random()
+            if r < 0.5:
+                feat["locus_tag"] = rng.choice(names)
+            elif r < 0.65:
+                feat["gene"] = rng.choice(names)
+            elif r < 0.75:
+                feat["protein_id"] = rng.choice(names)
+            elif r < 0.9:
+                pass    # no identifier at all: named after its position
+            else:
+                feat["locus_tag"] = rng.choice(names)
+                feat["gene"] = rng.choice(names)
+                feat["protein_id"] = rng.choice(names)
+            feat["pseudo"] = rng.random() < 0.15
+            feats.append(feat)
+        return {"kind": "bio", "feats": feats}
 
     SMALL_IDS = ["", "a", ":", ".", "1", "a:", ":a", "a.", "a1", "a:1", "a_0", "a_1", "_0", "a:_0", "a;",
                  "contig1234567.abcdefghijklmnop", "contig1234567.abcdefghijklmno:", "c1234567_conti..",
@@ -278,15 +405,22 @@ class C16(Property):
         yield from self.regex_cases()
         mult = 10 if deep else 1
         # interleaved so that every kind is reached early
-        for _ in range(500 * mult):
+        for block in range(500 * mult):
             for _ in range(10):
                 yield self.gen_ids_case(rng)
             for _ in range(6):
                 yield self.gen_fix_case(rng)
             for _ in range(2):
                 yield self.gen_unique_case(rng)
+            yield self.gen_unique_boundary_case(rng)
             for _ in range(5):
                 yield self.gen_genes_case(rng)
+            for _ in range(3):
+                yield self.gen_bio_case(rng)
+            if block % 10 == 0:
+                yield self.gen_fix_exhaustion_case(rng)
+            if block % (125 * mult // (3 if deep else 1)) == 3:
+                yield self.gen_exhaustion_ids_case(rng)      # ~1000 records each: 4 per quick run, 12 per deep run
         if deep:
             yield from self.small_scope(rng, full=(tier == "thorough"))
 
@@ -325,23 +459,32 @@ class C16(Property):
         from Bio.Seq import Seq
         from antismash.common.secmet import Record
         if kind == "ids":
-            records = [Record(Seq("ACGT"), id=i, name=n) for i, n in case["recs"]]
+            records = []
+            for rec in case["recs"]:
+                record = Record(Seq("ACGT"), id=rec[0], name=rec[1])
+                if len(rec) > 2 and rec[2] is not None:
+                    record.annotations["accession"] = rec[2]
+                records.append(record)
             try:
                 out = rp.pre_process_sequences(records, _Opts(case["allow_long"]), _NoGenefinding)
             except Exception as exc:  # pylint: disable=broad-except
                 return self._map_err(exc)
             same = len(out) == len(records) and all(a is b for a, b in zip(out, records))
-            return {"recs": [[r.id, r.name, r.original_id] for r in out], "same_objects": same}
+            return {"recs": [[r.id, r.name, r.original_id, r.annotations.get("accession")] for r in out],
+                    "same_objects": same}
         if kind == "fix":
             record = Record(Seq("ACGT"), id=case["rid"], name=case["name"])
             record.original_id = case["orig"]
             record.record_index = case["index"]
+            if case.get("acc") is not None:
+                record.annotations["accession"] = case["acc"]
             taken = set(case["taken"])
             try:
                 rp.fix_record_name_id(record, taken, case["allow_long"])
             except Exception as exc:  # pylint: disable=broad-except
                 return self._map_err(exc)
-            return {"rec": [record.id, record.name, record.original_id], "taken": sorted(taken)}
+            return {"rec": [record.id, record.name, record.original_id, record.annotations.get("accession")],
+                    "taken": sorted(taken)}
         if kind == "unique":
             taken = set(case["taken"])
             try:
@@ -353,25 +496,54 @@ class C16(Property):
             from antismash.common.secmet.features import CDSFeature, Gene
             record = Record(Seq("A" * 300))
             outs: List[Any] = []
+            untouched = True
             for op in case["ops"]:
                 location = common.make_location(op["loc"])
                 if op["op"] == "gene":
                     record.add_gene(Gene(location, locus_tag=op["locus_tag"]))
                     outs.append("gene")
                     continue
+                cds = None
                 try:
                     cds = CDSFeature(location, translation="MA", locus_tag=op["locus_tag"], gene=op["gene"],
                                      protein_id=op["protein_id"])
+                    before = (cds.locus_tag, cds.gene, cds.protein_id)
                     record.add_cds_feature(cds)
                     outs.append({"name": cds.get_name()})
                 except Exception as exc:  # pylint: disable=broad-except
                     outs.append({"err": self._map_err(exc)["err"]})
+                    # a rejected feature must not have been altered on the way
+                    if cds is not None and (cds.locus_tag, cds.gene, cds.protein_id) != before:
+                        untouched = False
             feats = record.get_cds_features()
             by_name = sorted(record._cds_by_name)          # pylint: disable=protected-access
             cdss = [[f.get_name(), common.location_json(f.location)] for f in feats]
             index_ok = (by_name == sorted(f.get_name() for f in feats)
                         and all(record.get_cds_by_name(f.get_name()) is f for f in feats))
-            return {"ops": outs, "cdss": cdss, "index_ok": index_ok}
+            return {"ops": outs, "cdss": cdss, "index_ok": index_ok, "rejected_untouched": untouched}
+        if kind == "bio":
+            from Bio.SeqFeature import SeqFeature
+            from Bio.SeqRecord import SeqRecord
+            bio = SeqRecord(Seq("ATG" + "GCA" * 100), id="rec", name="rec")
+            bio.annotations["molecule_type"] = "DNA"
+            for feat in case["feats"]:
+                quals = {key: [feat[key]] for key in ("locus_tag", "gene", "protein_id") if feat[key] is not None}
+                if feat["cds"]:
+                    quals["translation"] = ["MA"]
+                if feat["pseudo"]:
+                    quals["pseudo"] = [""]
+                bio.features.append(SeqFeature(common.make_location(feat["loc"]), type="CDS" if feat["cds"] else "gene",
+                                               qualifiers=quals))
+            try:
+                record = Record.from_biopython(bio, "bacteria")
+            except Exception as exc:  # pylint: disable=broad-except
+                return self._map_err(exc)
+            feats = record.get_cds_features()
+            by_name = sorted(record._cds_by_name)          # pylint: disable=protected-access
+            index_ok = (by_name == sorted(f.get_name() for f in feats)
+                        and all(record.get_cds_by_name(f.get_name()) is f for f in feats))
+            return {"cdss": [[f.get_name(), common.location_json(f.location)] for f in feats],
+                    "genes": [g.get_name() for g in record.get_genes()], "index_ok": index_ok}
         raise ValueError(f"unknown case kind {kind}")
 
     def driver_line(self, case: Dict[str, Any], obs: Dict[str, Any]) -> Optional[Dict[str, Any]]:
@@ -379,17 +551,16 @@ class C16(Property):
         if kind == "ids":
             return {"kind": kind, "allow_long": case["allow_long"], "recs": case["recs"], "impl": obs.get("recs")}
         if kind == "fix":
+            impl = None if "err" in obs else {"rec": obs["rec"][:3], "taken": obs["taken"]}
             return {"kind": kind, "allow_long": case["allow_long"], "rid": case["rid"], "name": case["name"],
-                    "orig": case["orig"], "index": case["index"], "taken": case["taken"]}
+                    "orig": case["orig"], "index": case["index"], "taken": case["taken"], "acc": case.get("acc"),
+                    "impl": impl}
         if kind == "unique":
             return {"kind": kind, "prefix": case["prefix"], "taken": case["taken"], "start": case["start"],
-                    "max_length": case["max_length"]}
-        ops = []
-        for op in case["ops"]:
-            op = dict(op)
-            op["chk"] = f"{zlib.crc32(loc_str(op['loc']).encode('utf-8')):x}"
-            ops.append(op)
-        return {"kind": kind, "ops": ops, "impl": obs.get("cdss")}
+                    "max_length": case["max_length"], "impl": obs.get("name")}
+        if kind == "bio":
+            return {"kind": kind, "feats": case["feats"], "impl": obs.get("cdss")}
+        return {"kind": kind, "ops": case["ops"], "impl": obs.get("cdss")}
 
     # ------------------------------------------------------------------ judge
     def judge(self, case: Dict[str, Any], obs: Dict[str, Any], drv: Optional[Dict[str, Any]]) -> Judgement:
@@ -407,6 +578,8 @@ class C16(Property):
             if "err" in obs:
                 corr = model.get("err") == obs["err"]
                 tags.append("rejected:" + obs["err"])
+                if len(case["recs"]) > 900:
+                    tags.append("thousand-records")
                 nontrivial = True
                 # rejecting is allowed only in the two documented ways
                 if obs["err"] not in ("RuntimeError", "no-name") or (case["allow_long"] and obs["err"] != "no-name"):
@@ -417,15 +590,17 @@ class C16(Property):
                 spec_ok = bool(spec and spec["ok"]) and obs["same_objects"]
                 if not spec_ok:
                     detail = f"spec {spec} on implementation output {obs['recs']}"
-                changed = sum(1 for (i, _), (o, _, _) in zip(case["recs"], obs["recs"]) if i != o)
+                changed = sum(1 for r, o in zip(case["recs"], obs["recs"]) if r[0] != o[0])
                 nontrivial = changed > 0
                 tags.append("changed" if changed else "unchanged")
                 tags.append("allow-long" if case["allow_long"] else "short-only")
-                if any(len(i) > 16 for i, _ in case["recs"]):
+                if len(case["recs"]) > 900:
+                    tags.append("thousand-records")
+                if any(len(r[0]) > 16 for r in case["recs"]):
                     tags.append("has-long-id")
-                if len({i for i, _ in case["recs"]}) < len(case["recs"]):
+                if len({r[0] for r in case["recs"]}) < len(case["recs"]):
                     tags.append("has-duplicates")
-                if len({strip_illegal(i) for i, _ in case["recs"]}) < len({i for i, _ in case["recs"]}):
+                if len({strip_illegal(r[0]) for r in case["recs"]}) < len({r[0] for r in case["recs"]}):
                     tags.append("collide-after-strip")
         elif kind == "fix":
             if "err" in obs:
@@ -436,23 +611,49 @@ class C16(Property):
                 detail = "" if spec_ok else f"unexpected rejection {obs}"
             else:
                 corr = model.get("rec") == obs["rec"] and model.get("taken") == obs["taken"]
+                spec_ok = bool(spec and spec["ok"])
+                if not spec_ok:
+                    detail = f"per-call spec {spec} on implementation output {obs['rec']} (set size {len(obs['taken'])})"
                 nontrivial = obs["rec"][0] != case["rid"] or obs["rec"][1] != case["name"]
                 tags.append("changed" if nontrivial else "unchanged")
+                if len(case["taken"]) >= 1000:
+                    tags.append("big-set")
         elif kind == "unique":
             if "err" in obs:
                 corr = model.get("err") == obs["err"]
                 tags.append("rejected:" + obs["err"])
             else:
                 corr = model.get("name") == obs["name"] and model.get("counter") == obs["counter"]
-                spec_ok = obs["name"] not in case["taken"] and obs["set_untouched"]
-                detail = "" if spec_ok else f"generated id {obs['name']} is taken / set modified"
+                spec_ok = bool(spec and spec["ok"]) and obs["set_untouched"]
+                detail = "" if spec_ok else (f"generate_unique_id returned {obs['name']!r} (length {len(obs['name'])}) "
+                                             f"with max_length={case['max_length']}: taken / too long / set modified")
+                if 0 < case["max_length"] == len(obs["name"]):
+                    tags.append("at-length-limit")
             nontrivial = bool(case["taken"])
+        elif kind == "bio":
+            if "err" in obs:
+                corr = model.get("err") == obs["err"]
+                tags.append("rejected:" + obs["err"])
+                nontrivial = True
+                spec_ok = obs["err"] in ("dup-location", "dup-name")     # the record is rejected as bad input
+                detail = "" if spec_ok else f"unexpected rejection {obs}"
+            else:
+                corr = ("cdss" in model and sorted_cdss(model["cdss"]) == sorted_cdss(obs["cdss"])
+                        and model["genes"] == obs["genes"])
+                spec_ok = bool(spec and spec["ok"]) and obs["index_ok"]
+                if not spec_ok:
+                    detail = f"spec {spec} index_ok={obs['index_ok']} on {obs['cdss']}"
+                given = {f[k] for f in case["feats"] for k in ("locus_tag", "gene", "protein_id") if f[k]}
+                nontrivial = any(c[0] not in given for c in obs["cdss"])
+                tags.append("renamed-or-sanitised" if nontrivial else "as-given")
         else:
             corr = model["ops"] == obs["ops"] and sorted_cdss(model["cdss"]) == sorted_cdss(obs["cdss"])
-            spec_ok = bool(spec and spec["ok"]) and obs["index_ok"]
-            if not spec_ok:
-                detail = f"spec {spec} index_ok={obs['index_ok']} on {obs['cdss']}"
             errs = [o["err"] for o in obs["ops"] if isinstance(o, dict) and "err" in o]
+            clean_rejections = all(e in ("dup-location", "dup-name", "no-identifier") for e in errs)
+            spec_ok = bool(spec and spec["ok"]) and obs["index_ok"] and clean_rejections and obs["rejected_untouched"]
+            if not spec_ok:
+                detail = (f"spec {spec} index_ok={obs['index_ok']} rejections={sorted(set(errs))} "
+                          f"rejected_untouched={obs['rejected_untouched']} on {obs['cdss']}")
             renamed = any(isinstance(o, dict) and "name" in o and "_" in o["name"] and len(o["name"]) > 6
                           for o in obs["ops"])
             nontrivial = bool(errs) or renamed
@@ -470,18 +671,41 @@ class C16(Property):
         kind = case["kind"]
         if kind == "ids":
             recs = case["recs"]
+            if len(recs) > 40:
+                # big families: drop halves / quarters / … only
+                size = len(recs) // 2
+                while size >= 1:
+                    for start in range(0, len(recs), size):
+                        yield dict(case, recs=recs[:start] + recs[start + size:])
+                    if size < len(recs) // 16:
+                        break
+                    size //= 2
+                return
             for i in range(len(recs)):
                 if len(recs) > 1:      # an empty input is rejected for another reason ("all records skipped")
                     yield dict(case, recs=recs[:i] + recs[i + 1:])
-            for i, (rid, name) in enumerate(recs):
+            for i, rec in enumerate(recs):
+                rid, name = rec[0], rec[1]
+                if len(rec) > 2:
+                    yield dict(case, recs=recs[:i] + [[rid, name]] + recs[i + 1:])
                 if name != rid:
-                    yield dict(case, recs=recs[:i] + [[rid, rid]] + recs[i + 1:])
+                    yield dict(case, recs=recs[:i] + [[rid, rid] + rec[2:]] + recs[i + 1:])
                 for k in range(len(rid)):
                     short = rid[:k] + rid[k + 1:]
-                    yield dict(case, recs=recs[:i] + [[short, short if name == rid else name]] + recs[i + 1:])
+                    yield dict(case, recs=recs[:i] + [[short, short if name == rid else name] + rec[2:]] + recs[i + 1:])
         elif kind == "fix":
-            for i in range(len(case["taken"])):
-                yield dict(case, taken=case["taken"][:i] + case["taken"][i + 1:])
+            taken = case["taken"]
+            if len(taken) > 40:
+                size = len(taken) // 2
+                while size >= 8:
+                    for start in range(0, len(taken), size):
+                        yield dict(case, taken=taken[:start] + taken[start + size:])
+                    size //= 2
+            else:
+                for i in range(len(taken)):
+                    yield dict(case, taken=taken[:i] + taken[i + 1:])
+            if case.get("acc") is not None:
+                yield dict(case, acc=None)
             if case["name"] != case["rid"]:
                 yield dict(case, name=case["rid"])
             if case["orig"] is not None:
@@ -495,6 +719,14 @@ class C16(Property):
         elif kind == "unique":
             for i in range(len(case["taken"])):
                 yield dict(case, taken=case["taken"][:i] + case["taken"][i + 1:])
+        elif kind == "bio":
+            feats = case["feats"]
+            for i in range(len(feats)):
+                yield dict(case, feats=feats[:i] + feats[i + 1:])
+            for i, feat in enumerate(feats):
+                for key in ("locus_tag", "gene", "protein_id"):
+                    if feat[key] is not None and sum(feat[k] is not None for k in ("locus_tag", "gene", "protein_id")) > 1:
+                        yield dict(case, feats=feats[:i] + [dict(feat, **{key: None})] + feats[i + 1:])
         else:
             ops = case["ops"]
             for i in range(len(ops)):
@@ -509,6 +741,11 @@ def loc_str(loc: Dict[str, Any]) -> str:
     if loc["c"]:
         return "join{" + ", ".join(part(p) for p in loc["parts"]) + "}"
     return part(loc["parts"][0])
+
+
+def sanitised(name: str) -> str:
+    """what `_sanitise_id_value` makes of a name (only used to *build* interesting inputs)"""
+    return "".join("_" if ch in set("!\"#$%&()*+,:; \r\n\t=>?@[]^`'{|}/ ") else ch for ch in name)
 
 
 def sorted_cdss(cdss: List[Any]) -> List[Any]:
